@@ -119,6 +119,9 @@ class Fn:
         self.structs = {}               # name of a `Data x = *p;` local -> pointer expression
         self.nloc = 0
         self.field_name = "data" if cls != "Ptr" else "refObj"
+        self.aliases = {}               # parameter of an inlined helper -> (PE, field) of its argument
+        self.src = ""                   # source of the class (helpers are looked up there)
+        self.depth = 0
 
 
 def px(fn, t):
@@ -129,6 +132,8 @@ def px(fn, t):
         t = t[1:-1]
     if len(t) == 1:
         n = t[0]
+        if n in fn.aliases:
+            return fn.aliases[n]
         if n in fn.locals:
             i, f = fn.locals[n]
             return f"(.loc {i})", f
@@ -393,7 +398,34 @@ class Parser:
                 if f not in (l[1], "raw", "none"):
                     raise Refuse(f"store mixes the fields: {' '.join(s)}")
                 return f".store {l[0]} {r}" if l[1] == "ref" else f".storeO {l[0]} {r}"
+        if len(s) >= 4 and re.fullmatch(r"[A-Za-z_]\w*", s[0]) and s[1] == "(" and s[-1] == ")" and px(fn, s[2:-1]) is not None:
+            return self.helper(s[0], px(fn, s[2:-1]))
+        if len(s) == 3 and re.fullmatch(r"[A-Za-z_]\w*", s[0]) and s[1:] == ["(", ")"]:
+            return self.helper(s[0], None)
         raise Refuse(f"statement not understood: {' '.join(s)}")
+
+    def helper(self, name, arg):
+        """`name(<ptr>);` -> the body of the one-pointer-parameter helper `[static] void name(Data* p)` of the same class, inlined"""
+        fn = self.fn
+        if fn.depth >= 2 or name in ("detach", "append", "prepend"):
+            raise Refuse(f"call of {name}() is outside the subset")
+        ty = "Object" if fn.cls == "Ptr" else "Data"
+        if arg is None:
+            rx = r"(?:inline\s+)?void\s+" + re.escape(name) + r"\s*\(\s*\)"
+        else:
+            rx = r"(?:static\s+)?(?:inline\s+)?void\s+" + re.escape(name) + r"\s*\(\s*" + ty + r"\s*\*\s*(?:const\s+)?(?P<p>[A-Za-z_]\w*)\s*\)"
+        param, init, body = find_function(fn.src, rx, f"helper {name}()")
+        if init:
+            raise Refuse(f"helper {name}() has an initialiser list")
+        saved = (dict(fn.aliases), fn.depth)
+        fn.aliases = dict(fn.aliases)
+        if arg is not None:
+            fn.aliases[param] = arg
+        fn.depth += 1
+        try:
+            return Parser(fn, body, self.clear_body).block()
+        finally:
+            fn.aliases, fn.depth = saved
 
     def inline_fields(self, first, rhs):
         """`_data.ref = 0; _data.str = …; _data.len = …;` in any order -> one copyInline from the arguments"""
@@ -469,6 +501,7 @@ def init_list(fn, toks):
 def translate(src, cls, sig_rx, what, raw=False, clear_body=None):
     param, init, body = find_function(src, sig_rx, what)
     fn = Fn(cls, None if raw else param, param if raw else None)
+    fn.src = src
     try:
         pre = init_list(fn, init)
         return seq(pre + [Parser(fn, body, clear_body).block()])
